@@ -273,6 +273,11 @@ Definition two_winners (k : nat) (H : list sevent) : Prop :=
 Definition op_eqb (a b : op) : bool := if op_eq_dec a b then true else false.
 Definition ret_eqb (a b : ret) : bool := if ret_eq_dec a b then true else false.
 
+(* vm_compute is call-by-value: `a || b` and the library `existsb` evaluate both sides.  The searches below
+   must short-circuit, so they use `if` and this lazy existsb. *)
+Fixpoint lexistsb {A : Type} (f : A -> bool) (l : list A) : bool :=
+  match l with [] => false | a :: r => if f a then true else lexistsb f r end.
+
 (* (1) brute-force linearizability of a complete history given as operation records
        (thread, op, result, index of Inv, index of Res), real-time order included (Wing & Gong) *)
 Record oprec : Type := mkOp { o_t : nat; o_op : op; o_ret : ret; o_inv : nat; o_res : nat }.
@@ -294,11 +299,13 @@ Fixpoint lin_search (fuel : nat) (m : smap) (rem : list oprec) : bool :=
       match rem with
       | [] => true
       | _ =>
-          existsb (fun i =>
+          lexistsb (fun i =>
             match nth_error rem i with
             | Some a =>
-                minimal a rem
-                && (let (m', r) := spec m (o_op a) in ret_eqb r (o_ret a) && lin_search f m' (remove_nth i rem))
+                if minimal a rem then
+                  let (m', r) := spec m (o_op a) in
+                  if ret_eqb r (o_ret a) then lin_search f m' (remove_nth i rem) else false
+                else false
             | None => false
             end) (seq 0 (length rem))
       end
@@ -320,9 +327,9 @@ Fixpoint merge_search (fuel : nat) (m : smap) (R : list (nat * (op * ret))) : bo
       match R with
       | [] => true
       | _ =>
-          existsb (fun t =>
+          lexistsb (fun t =>
             match first_of t R with
-            | Some (o, r) => let (m', r') := spec m o in ret_eqb r' r && merge_search f m' (remove_first t R)
+            | Some (o, r) => let (m', r') := spec m o in if ret_eqb r' r then merge_search f m' (remove_first t R) else false
             | None => false
             end) (map fst R)
       end
@@ -359,22 +366,23 @@ Fixpoint accept_search (rep : bool) (fuel : nat) (tids : list nat) (c : scfg) (o
   | 0 => false
   | S f =>
       (* consume the next observed event *)
-      (match obs with
-       | [] => forallb (fun t => match tstate (sthr c t), tops (sthr c t) with TIdle, [] => true | _, _ => false end) tids
-       | (t, e) :: rest =>
-           let ch := match e with EVisit k _ => Some k | _ => None end in
-           match sstep rep c t ch with
-           | Some (c', e') => sev_eqb e e' && accept_search rep f tids c' rest
-           | None => false
-           end
-       end)
-      || (* or fire a hidden step of some thread *)
-      existsb (fun t =>
-        existsb (fun ch =>
-          match sstep rep c t ch with
-          | Some (c', e') => negb (observable e') && accept_search rep f tids c' obs
-          | None => false
-          end) (hidden_choices c t)) tids
+      if (match obs with
+          | [] => forallb (fun t => match tstate (sthr c t), tops (sthr c t) with TIdle, [] => true | _, _ => false end) tids
+          | (t, e) :: rest =>
+              let ch := match e with EVisit k _ => Some k | _ => None end in
+              match sstep rep c t ch with
+              | Some (c', e') => if sev_eqb e e' then accept_search rep f tids c' rest else false
+              | None => false
+              end
+          end)
+      then true
+      else (* or fire a hidden step of some thread *)
+        lexistsb (fun t =>
+          lexistsb (fun ch =>
+            match sstep rep c t ch with
+            | Some (c', e') => if observable e' then false else accept_search rep f tids c' obs
+            | None => false
+            end) (hidden_choices c t)) tids
   end.
 
 Definition model_accepts (rep : bool) (progs : list (list op)) (obs : list sevent) : bool :=
